@@ -1,105 +1,141 @@
-// C13 correspondence harness: every op is executed through the C API; getters are additionally read through the
-// C++ object behind the id (friend access to IPhreeqc::Instances) and through the Fortran glue (…F functions), and
-// the three results are printed side by side. First token of each output line is the C result (model-comparable).
+// C13 correspondence harness. Every op names the C function it exercises; getters are read through the C API, through the
+// C++ object behind the id (friend access to IPhreeqc::Instances) and through the Fortran glue (…F functions) side by side;
+// mutating functions go through ONE binding chosen by the caller (via = c | f | p(C++ object)). The first segment of each
+// output line is the C-level result (compared with `pmodel api`); the segments after " | " are the other bindings.
+//   create | createcpp | createf                 destroy | destroycpp | destroyf <id>
+//   g1 <Name> <id>                 int  Name(id)                       -> "I c | cpp x | f y"
+//   g2 <Name> <id> <cap>           const char* Name(id); NameF(id, buf[cap], len) where it exists -> "S hex | cpp hex | f buf:len"
+//   g3 <Name> <id> <n> <cap>       const char* Name(id, n); NameF(id, n+1, buf[cap], len)
+//   nth <id> <n>                   GetNthSelectedOutputUserNumber(id, n) / C++ / F(n+1)
+//   g4 <via> <Name> <id> <int>     Name(id, int)                       -> "I r"
+//   g5 <via> <Name> <id> <hex|NULL>Name(id, const char*)               -> "I r"
+//   g6 <via> <Name> <id>           void Name(id), stdout captured      -> "O hex"
+//   cell <id> <row> <col>          GetSelectedOutputValue / C++ / Value2 / ValueF(col+1)
+//   setcb <via> <id>               SetBasicCallback (c, p) / SetBasicFortranCallback (fc) / …F (f)
+//   version                        GetVersionString / IPhreeqc::GetVersionString / GetVersionStringF
+//   loaddb <via> <id> | loadbad <via> <id> | defsel <via> <id> <n> <hex|->      (PH_DB = database path)
+//   pad <hex> <len>                padfstring(dest[len], src, &len)    -> "P buf:len"
 #include "friend.hpp"
 #include "hx.hpp"
 #include "IPhreeqc.h"
 #include "IPhreeqc_interface_F.h"
+#include <map>
+#include <functional>
+void padfstring(char *dest, const char *src, int* len);
 static std::string fstr(const char* buf, int cap, int len){ // Fortran buffer: cap characters, reported length len
   std::string s(buf, cap); return hx::hex(s)+":"+std::to_string(len); }
 #define FBUF 48
+static double cb_c(double x1, double x2, const char* s, void* cookie){ return x1 + x2 + (cookie ? *(double*)cookie : 0); }
+static double cb_f(double* x1, double* x2, const char* s, int l){ return *x1 * *x2 + l; }
+static double cookie_val = 1000.0;
+
+struct G1 { std::function<int(int)> c; std::function<int(IPhreeqc*)> p; std::function<int(int*)> f; };
+struct G2 { std::function<const char*(int)> c; std::function<const char*(IPhreeqc*)> p; std::function<void(int*,char*,int*)> f; };
+struct G3 { std::function<const char*(int,int)> c; std::function<const char*(IPhreeqc*,int)> p; std::function<void(int*,int*,char*,int*)> f; };
+struct G4 { std::function<int(int,int)> c; std::function<int(IPhreeqc*,int)> p; std::function<int(int*,int*)> f; };
+struct G5 { std::function<int(int,const char*)> c; std::function<int(IPhreeqc*,const char*)> p; std::function<int(int*,char*)> f; };
+struct G6 { std::function<void(int)> c; std::function<void(IPhreeqc*)> p; std::function<void(int*)> f; };
+#define E1(N)   {#N, { [](int id){return (int)N(id);}, [](IPhreeqc* q){return (int)q->N();}, [](int* id){return (int)N##F(id);} }}
+#define E2F(N)  {#N, { [](int id){return N(id);}, [](IPhreeqc* q){return q->N();}, [](int* id,char* b,int* l){ N##F(id,b,l); } }}
+#define E2(N)   {#N, { [](int id){return N(id);}, [](IPhreeqc* q){return q->N();}, nullptr }}
+#define E3(N)   {#N, { [](int id,int n){return N(id,n);}, [](IPhreeqc* q,int n){return q->N(n);}, [](int* id,int* n,char* b,int* l){ N##F(id,n,b,l); } }}
+#define E4B(N)  {#N, { [](int id,int v){return (int)N(id,v);}, [](IPhreeqc* q,int v){ q->N(v!=0); return 0;}, [](int* id,int* v){return (int)N##F(id,v);} }}
+#define E5V(N)  {#N, { [](int id,const char* s){return (int)N(id,s);}, [](IPhreeqc* q,const char* s){ q->N(s); return 0;}, [](int* id,char* s){return (int)N##F(id,s);} }}
+#define E5I(N)  {#N, { [](int id,const char* s){return (int)N(id,s);}, [](IPhreeqc* q,const char* s){ return (int)q->N(s);}, [](int* id,char* s){return (int)N##F(id,s);} }}
+#define E6(N)   {#N, { [](int id){N(id);}, [](IPhreeqc* q){q->N();}, [](int* id){N##F(id);} }}
+
+static std::map<std::string,G1> g1 = { E1(GetComponentCount), E1(GetCurrentSelectedOutputUserNumber), E1(GetDumpFileOn), E1(GetDumpStringLineCount),
+  E1(GetDumpStringOn), E1(GetErrorFileOn), E1(GetErrorOn), E1(GetErrorStringLineCount), E1(GetErrorStringOn), E1(GetLogFileOn),
+  E1(GetLogStringLineCount), E1(GetLogStringOn), E1(GetOutputFileOn), E1(GetOutputStringLineCount), E1(GetOutputStringOn),
+  E1(GetSelectedOutputColumnCount), E1(GetSelectedOutputCount), E1(GetSelectedOutputFileOn), E1(GetSelectedOutputRowCount),
+  E1(GetSelectedOutputStringLineCount), E1(GetSelectedOutputStringOn), E1(GetWarningStringLineCount), E1(RunAccumulated),
+  {"ClearAccumulatedLines", { [](int id){return (int)ClearAccumulatedLines(id);}, [](IPhreeqc* q){ q->ClearAccumulatedLines(); return 0;}, [](int* id){return (int)ClearAccumulatedLinesF(id);} }} };
+static std::map<std::string,G2> g2 = { E2F(GetDumpFileName), E2F(GetErrorFileName), E2F(GetLogFileName), E2F(GetOutputFileName),
+  E2F(GetSelectedOutputFileName), E2(GetDumpString), E2(GetErrorString), E2(GetLogString), E2(GetOutputString), E2(GetSelectedOutputString),
+  E2(GetWarningString) };
+static std::map<std::string,G3> g3 = { E3(GetComponent), E3(GetDumpStringLine), E3(GetErrorStringLine), E3(GetLogStringLine),
+  E3(GetOutputStringLine), E3(GetSelectedOutputStringLine), E3(GetWarningStringLine) };
+static std::map<std::string,G4> g4 = { E4B(SetDumpFileOn), E4B(SetDumpStringOn), E4B(SetErrorFileOn), E4B(SetErrorOn), E4B(SetErrorStringOn),
+  E4B(SetLogFileOn), E4B(SetLogStringOn), E4B(SetOutputFileOn), E4B(SetOutputStringOn), E4B(SetSelectedOutputFileOn), E4B(SetSelectedOutputStringOn),
+  {"SetCurrentSelectedOutputUserNumber", { [](int id,int v){return (int)SetCurrentSelectedOutputUserNumber(id,v);},
+     [](IPhreeqc* q,int v){return (int)q->SetCurrentSelectedOutputUserNumber(v);}, [](int* id,int* v){return (int)SetCurrentSelectedOutputUserNumberF(id,v);} }} };
+static std::map<std::string,G5> g5 = { E5V(SetDumpFileName), E5V(SetErrorFileName), E5V(SetLogFileName), E5V(SetOutputFileName),
+  E5V(SetSelectedOutputFileName), E5I(AccumulateLine), E5I(AddError), E5I(AddWarning), E5I(LoadDatabase), E5I(LoadDatabaseString),
+  E5I(RunFile), E5I(RunString) };
+static std::map<std::string,G6> g6 = { E6(OutputAccumulatedLines), E6(OutputErrorString), E6(OutputWarningString) };
+
 int main(){
+  std::streambuf* real = std::cout.rdbuf(); std::ostream out(real);
+  std::ostringstream cap; std::cout.rdbuf(cap.rdbuf());          // whatever the library prints to std::cout is captured
+  const char* dbp = getenv("PH_DB"); std::string db = dbp ? dbp : "";
   std::string line;
   while(std::getline(std::cin,line)){
     auto w = hx::words(line); if(w.empty()) continue;
     const std::string& op=w[0];
-    if(op=="create"){ int id=CreateIPhreeqc(); std::cout<<"I "<<id<<"\n"; }
-    else if(op=="createcpp"){ IPhreeqc* q=new IPhreeqc(); std::cout<<"I "<<q->GetId()<<"\n"; }
-    else if(op=="destroycpp"){ int id=std::stoi(w[1]); IPhreeqc* q=TestIPhreeqc::instance(id); if(q){ delete q; std::cout<<"I 0\n"; } else std::cout<<"I -6\n"; }
-    else if(op=="createf"){ int id=CreateIPhreeqcF(); std::cout<<"I "<<id<<"\n"; }
-    else if(op=="destroy"){ int id=std::stoi(w[1]); std::cout<<"I "<<(int)DestroyIPhreeqc(id)<<"\n"; }
-    else if(op=="setsw"){
-      int id=std::stoi(w[2]), v=std::stoi(w[3]); int r=-99; const std::string& k=w[1];
-      if(k=="outfile") r=SetOutputFileOn(id,v); else if(k=="outstr") r=SetOutputStringOn(id,v);
-      else if(k=="errfile") r=SetErrorFileOn(id,v); else if(k=="errstr") r=SetErrorStringOn(id,v);
-      else if(k=="erron") r=SetErrorOn(id,v); else if(k=="logfile") r=SetLogFileOn(id,v);
-      else if(k=="logstr") r=SetLogStringOn(id,v); else if(k=="dumpfile") r=SetDumpFileOn(id,v);
-      else if(k=="dumpstr") r=SetDumpStringOn(id,v); else if(k=="selfile") r=SetSelectedOutputFileOn(id,v);
-      else if(k=="selstr") r=SetSelectedOutputStringOn(id,v);
-      std::cout<<"I "<<r<<"\n";
-    }
-    else if(op=="getsw"){
-      int id=std::stoi(w[2]); const std::string& k=w[1]; int c=-99, f=-99; IPhreeqc* p=TestIPhreeqc::instance(id); int cpp=-77;
-      if(k=="outfile"){c=GetOutputFileOn(id); f=GetOutputFileOnF(&id); if(p)cpp=p->GetOutputFileOn();}
-      else if(k=="outstr"){c=GetOutputStringOn(id); f=GetOutputStringOnF(&id); if(p)cpp=p->GetOutputStringOn();}
-      else if(k=="errfile"){c=GetErrorFileOn(id); f=GetErrorFileOnF(&id); if(p)cpp=p->GetErrorFileOn();}
-      else if(k=="errstr"){c=GetErrorStringOn(id); f=GetErrorStringOnF(&id); if(p)cpp=p->GetErrorStringOn();}
-      else if(k=="erron"){c=GetErrorOn(id); f=GetErrorOnF(&id); if(p)cpp=p->GetErrorOn();}
-      else if(k=="logfile"){c=GetLogFileOn(id); f=GetLogFileOnF(&id); if(p)cpp=p->GetLogFileOn();}
-      else if(k=="logstr"){c=GetLogStringOn(id); f=GetLogStringOnF(&id); if(p)cpp=p->GetLogStringOn();}
-      else if(k=="dumpfile"){c=GetDumpFileOn(id); f=GetDumpFileOnF(&id); if(p)cpp=p->GetDumpFileOn();}
-      else if(k=="dumpstr"){c=GetDumpStringOn(id); f=GetDumpStringOnF(&id); if(p)cpp=p->GetDumpStringOn();}
-      else if(k=="selfile"){c=GetSelectedOutputFileOn(id); f=GetSelectedOutputFileOnF(&id); if(p)cpp=p->GetSelectedOutputFileOn();}
-      else if(k=="selstr"){c=GetSelectedOutputStringOn(id); f=GetSelectedOutputStringOnF(&id); if(p)cpp=p->GetSelectedOutputStringOn();}
-      std::cout<<"I "<<c<<" | cpp "<<cpp<<" | f "<<f<<"\n";
-    }
-    else if(op=="setname"){
-      int id=std::stoi(w[2]); const std::string& k=w[1]; std::string s; const char* a=0;
-      if(w[3]!="NULL"){ s=hx::unhex(w[3]); a=s.c_str(); }
-      int r=-99;
-      if(k=="out") r=SetOutputFileName(id,a); else if(k=="err") r=SetErrorFileName(id,a);
-      else if(k=="log") r=SetLogFileName(id,a); else if(k=="dump") r=SetDumpFileName(id,a);
-      else if(k=="sel") r=SetSelectedOutputFileName(id,a);
-      std::cout<<"I "<<r<<"\n";
-    }
-    else if(op=="getname"){
-      int id=std::stoi(w[2]); const std::string& k=w[1]; const char* c=0; IPhreeqc* p=TestIPhreeqc::instance(id); const char* cpp=0;
-      char buf[FBUF]; int len=FBUF;
-      if(k=="out"){c=GetOutputFileName(id); GetOutputFileNameF(&id,buf,&len); if(p)cpp=p->GetOutputFileName();}
-      else if(k=="err"){c=GetErrorFileName(id); GetErrorFileNameF(&id,buf,&len); if(p)cpp=p->GetErrorFileName();}
-      else if(k=="log"){c=GetLogFileName(id); GetLogFileNameF(&id,buf,&len); if(p)cpp=p->GetLogFileName();}
-      else if(k=="dump"){c=GetDumpFileName(id); GetDumpFileNameF(&id,buf,&len); if(p)cpp=p->GetDumpFileName();}
-      else if(k=="sel"){c=GetSelectedOutputFileName(id); GetSelectedOutputFileNameF(&id,buf,&len); if(p)cpp=p->GetSelectedOutputFileName();}
-      std::cout<<"S "<<hx::hex(c?c:"(null)")<<" | cpp "<<(cpp?hx::hex(cpp):std::string("dead"))<<" | f "<<fstr(buf,FBUF,len)<<"\n";
-    }
-    else if(op=="setcur"){ int id=std::stoi(w[1]); std::cout<<"I "<<(int)SetCurrentSelectedOutputUserNumber(id,std::stoi(w[2]))<<"\n"; }
-    else if(op=="getcur"){ int id=std::stoi(w[1]); IPhreeqc* p=TestIPhreeqc::instance(id);
-      std::cout<<"I "<<GetCurrentSelectedOutputUserNumber(id)<<" | cpp "<<(p?p->GetCurrentSelectedOutputUserNumber():-77)<<" | f "<<GetCurrentSelectedOutputUserNumberF(&id)<<"\n"; }
-    else if(op=="load"){ int id=std::stoi(w[1]); std::cout<<"I "<<LoadDatabase(id,hx::unhex(w[2]).c_str())<<"\n"; }
-    else if(op=="run"){ int id=std::stoi(w[1]); std::cout<<"I "<<RunString(id,hx::unhex(w[2]).c_str())<<"\n"; }
-    else if(op=="runf"){ int id=std::stoi(w[1]); std::string s=hx::unhex(w[2]); std::cout<<"I "<<RunStringF(&id,(char*)s.c_str())<<"\n"; }
-    else if(op=="counts"){ // row / column / line counts through the three bindings
-      int id=std::stoi(w[1]); IPhreeqc* p=TestIPhreeqc::instance(id);
-      std::cout<<"K rows "<<GetSelectedOutputRowCount(id)<<" "<<(p?p->GetSelectedOutputRowCount():-77)<<" "<<GetSelectedOutputRowCountF(&id)
-               <<" cols "<<GetSelectedOutputColumnCount(id)<<" "<<(p?p->GetSelectedOutputColumnCount():-77)<<" "<<GetSelectedOutputColumnCountF(&id)
-               <<" sellines "<<GetSelectedOutputStringLineCount(id)<<" "<<(p?p->GetSelectedOutputStringLineCount():-77)<<" "<<GetSelectedOutputStringLineCountF(&id)
-               <<" outlines "<<GetOutputStringLineCount(id)<<" "<<(p?p->GetOutputStringLineCount():-77)<<" "<<GetOutputStringLineCountF(&id)
-               <<" errlines "<<GetErrorStringLineCount(id)<<" "<<(p?p->GetErrorStringLineCount():-77)<<" "<<GetErrorStringLineCountF(&id)
-               <<" comps "<<GetComponentCount(id)<<" "<<(p?(int)p->GetComponentCount():-77)<<" "<<GetComponentCountF(&id)
-               <<" selcount "<<GetSelectedOutputCount(id)<<" "<<(p?p->GetSelectedOutputCount():-77)<<" "<<GetSelectedOutputCountF(&id)<<"\n";
-    }
+    auto arg=[&](size_t k){ return std::stoi(w.at(k)); };
+    try {
+    if(op=="create"){ out<<"I "<<CreateIPhreeqc()<<"\n"; }
+    else if(op=="createcpp"){ IPhreeqc* q=new IPhreeqc(); out<<"I "<<q->GetId()<<"\n"; }
+    else if(op=="createf"){ out<<"I "<<CreateIPhreeqcF()<<"\n"; }
+    else if(op=="destroy"){ out<<"I "<<(int)DestroyIPhreeqc(arg(1))<<"\n"; }
+    else if(op=="destroyf"){ int id=arg(1); out<<"I "<<(int)DestroyIPhreeqcF(&id)<<"\n"; }
+    else if(op=="destroycpp"){ IPhreeqc* q=TestIPhreeqc::instance(arg(1)); if(q){ delete q; out<<"I 0\n"; } else out<<"I -6\n"; }
+    else if(op=="g1"){ auto& e=g1.at(w[1]); int id=arg(2); IPhreeqc* q=TestIPhreeqc::instance(id);
+      // mutating members of this group (RunAccumulated, ClearAccumulatedLines) are idempotent here: same state, same answer
+      int c=e.c(id); int p=q?e.p(q):-77; int f=e.f(&id);
+      out<<"I "<<c<<" | cpp "<<p<<" | f "<<f<<"\n"; }
+    else if(op=="g2"){ auto& e=g2.at(w[1]); int id=arg(2), capn=arg(3); IPhreeqc* q=TestIPhreeqc::instance(id);
+      const char* c=e.c(id); std::string cs=c?c:"(null)"; const char* p=q?e.p(q):0; std::string ps=p?hx::hex(p):std::string("dead");
+      std::string fs="-"; if(e.f){ std::vector<char> buf(capn+8,'#'); int len=capn; e.f(&id,buf.data(),&len);
+        bool intact=true; for(int k=capn;k<capn+8;k++) intact = intact && buf[k]=='#'; fs=fstr(buf.data(),capn,len)+(intact?"":":OVERRUN"); }
+      out<<"S "<<hx::hex(cs)<<" | cpp "<<ps<<" | f "<<fs<<"\n"; }
+    else if(op=="g3"){ auto& e=g3.at(w[1]); int id=arg(2), n=arg(3), capn=arg(4), nf=n+1; IPhreeqc* q=TestIPhreeqc::instance(id);
+      const char* c=e.c(id,n); std::string cs=c?c:"(null)"; const char* p=q?e.p(q,n):0; std::string ps=p?hx::hex(p):std::string("dead");
+      std::vector<char> buf(capn+8,'#'); int len=capn; e.f(&id,&nf,buf.data(),&len);
+      bool intact=true; for(int k=capn;k<capn+8;k++) intact = intact && buf[k]=='#';
+      out<<"S "<<hx::hex(cs)<<" | cpp "<<ps<<" | f "<<fstr(buf.data(),capn,len)<<(intact?"":":OVERRUN")<<"\n"; }
+    else if(op=="nth"){ int id=arg(1), n=arg(2), nf=n+1; IPhreeqc* q=TestIPhreeqc::instance(id);
+      out<<"I "<<GetNthSelectedOutputUserNumber(id,n)<<" | cpp "<<(q?q->GetNthSelectedOutputUserNumber(n):-77)<<" | f "<<GetNthSelectedOutputUserNumberF(&id,&nf)<<"\n"; }
+    else if(op=="g4"){ auto& e=g4.at(w[2]); int id=arg(3), v=arg(4); IPhreeqc* q=TestIPhreeqc::instance(id); int r;
+      if(w[1]=="c") r=e.c(id,v); else if(w[1]=="f") r=e.f(&id,&v); else r = q ? e.p(q,v) : -6;
+      out<<"I "<<r<<"\n"; }
+    else if(op=="g5"){ auto& e=g5.at(w[2]); int id=arg(3); std::string s; const char* a=0; if(w[4]!="NULL"){ s=hx::unhex(w[4]); a=s.c_str(); }
+      IPhreeqc* q=TestIPhreeqc::instance(id); int r;
+      if(w[1]=="c") r=e.c(id,a); else if(w[1]=="f") r=e.f(&id,(char*)a); else r = q ? e.p(q,a) : -6;
+      out<<"I "<<r<<"\n"; }
+    else if(op=="g6"){ auto& e=g6.at(w[2]); int id=arg(3); IPhreeqc* q=TestIPhreeqc::instance(id); cap.str("");
+      if(w[1]=="c") e.c(id); else if(w[1]=="f") e.f(&id); else if(q) e.p(q); else std::cout<<w[2]<<": Invalid instance id.\n"<<std::endl;
+      out<<"O "<<hx::hex(cap.str())<<"\n"; cap.str(""); }
+    else if(op=="setcb"){ int id=arg(2); IPhreeqc* q=TestIPhreeqc::instance(id); int r;
+      if(w[1]=="c") r=SetBasicCallback(id,cb_c,&cookie_val); else if(w[1]=="fc") r=SetBasicFortranCallback(id,cb_f);
+      else if(w[1]=="f") r=SetBasicFortranCallbackF(&id,cb_f); else { if(q){ q->SetBasicCallback(cb_c,&cookie_val); r=0; } else r=-6; }
+      out<<"I "<<r<<"\n"; }
+    else if(op=="version"){ char buf[FBUF]; int len=FBUF; GetVersionStringF(buf,&len);
+      out<<"S "<<hx::hex(GetVersionString())<<" | cpp "<<hx::hex(IPhreeqc::GetVersionString())<<" | f "<<fstr(buf,FBUF,len)<<"\n"; }
+    else if(op=="loaddb"||op=="loadbad"){ int id=arg(2); std::string f = op=="loaddb" ? db : std::string("/nonexistent/none.dat"); IPhreeqc* q=TestIPhreeqc::instance(id); int r;
+      if(w[1]=="c") r=LoadDatabase(id,f.c_str()); else if(w[1]=="f") r=LoadDatabaseF(&id,(char*)f.c_str()); else r = q ? q->LoadDatabase(f.c_str()) : -6;
+      out<<"I "<<r<<"\n"; }
+    else if(op=="defsel"){ int id=arg(2), n=arg(3); std::string in="SELECTED_OUTPUT "+std::to_string(n)+"\n -reset false\n";
+      if(w[4]!="-") in += " -file "+hx::unhex(w[4])+"\n"; IPhreeqc* q=TestIPhreeqc::instance(id); int r;
+      if(w[1]=="c") r=RunString(id,in.c_str()); else if(w[1]=="f") r=RunStringF(&id,(char*)in.c_str()); else r = q ? q->RunString(in.c_str()) : -6;
+      out<<"I "<<r<<"\n"; }
+    else if(op=="pad"){ std::string s=hx::unhex(w[1]); int n=arg(2), len=n; std::vector<char> buf(n+8,'#'); padfstring(buf.data(), s.c_str(), &len);
+      bool intact=true; for(int k=n;k<n+8;k++) intact = intact && buf[k]=='#';
+      out<<"P "<<hx::hex(std::string(buf.data(),n))<<":"<<len<<(intact?"":":OVERRUN")<<"\n"; }
     else if(op=="cell"){ // cell id row col : C (0-based col), C++, Value2, F (1-based col)
-      int id=std::stoi(w[1]), r=std::stoi(w[2]), c=std::stoi(w[3]); IPhreeqc* p=TestIPhreeqc::instance(id);
+      int id=arg(1), r=arg(2), c=arg(3); IPhreeqc* p=TestIPhreeqc::instance(id);
       auto show=[&](const VAR& v){ switch(v.type){case TT_EMPTY:return std::string("E");case TT_ERROR:return "X"+std::to_string((int)v.vresult);
         case TT_LONG:return "L"+std::to_string(v.lVal);case TT_DOUBLE:return "D"+hx::hexd(v.dVal);case TT_STRING:return "S"+hx::hex(v.sVal?v.sVal:"");} return std::string("?");};
       VAR v1; VarInit(&v1); int rc=GetSelectedOutputValue(id,r,c,&v1); std::string s1=show(v1); VarClear(&v1);
       std::string s2="dead"; int rcpp=-77; if(p){ VAR v2; VarInit(&v2); rcpp=p->GetSelectedOutputValue(r,c,&v2); s2=show(v2); VarClear(&v2);}
-      int vt=-1; double d=0; char sv[FBUF]; memset(sv,'#',FBUF); int r2=GetSelectedOutputValue2(id,r,c,&vt,&d,sv,FBUF); 
+      int vt=-1; double d=0; char sv[FBUF]; memset(sv,'#',FBUF); int r2=GetSelectedOutputValue2(id,r,c,&vt,&d,sv,FBUF);
       int vtf=-1; double df=0; char svf[FBUF]; memset(svf,'#',FBUF); int lenf=FBUF; int cf=c+1; int rf=GetSelectedOutputValueF(&id,&r,&cf,&vtf,&df,svf,&lenf);
-      std::cout<<"C "<<rc<<" "<<s1<<" | cpp "<<rcpp<<" "<<s2<<" | v2 "<<r2<<" "<<vt<<" "<<hx::hexd(d)<<" "<<hx::hex(std::string(sv,strnlen(sv,FBUF)))
+      out<<"I "<<rc<<" "<<s1<<" | cpp "<<rcpp<<" "<<s2<<" | v2 "<<r2<<" "<<vt<<" "<<hx::hexd(d)<<" "<<hx::hex(std::string(sv,strnlen(sv,FBUF)))
                <<" | f "<<rf<<" "<<vtf<<" "<<hx::hexd(df)<<" "<<fstr(svf,FBUF,lenf)<<"\n";
     }
-    else if(op=="line"){ // line id which n : 0-based C, C++, 1-based F
-      int id=std::stoi(w[1]); const std::string& k=w[2]; int n=std::stoi(w[3]); int nf=n+1; IPhreeqc* p=TestIPhreeqc::instance(id);
-      const char* c=0; const char* cpp=0; char buf[256]; int len=256;
-      if(k=="sel"){c=GetSelectedOutputStringLine(id,n); GetSelectedOutputStringLineF(&id,&nf,buf,&len); if(p)cpp=p->GetSelectedOutputStringLine(n);}
-      else if(k=="out"){c=GetOutputStringLine(id,n); GetOutputStringLineF(&id,&nf,buf,&len); if(p)cpp=p->GetOutputStringLine(n);}
-      else if(k=="err"){c=GetErrorStringLine(id,n); GetErrorStringLineF(&id,&nf,buf,&len); if(p)cpp=p->GetErrorStringLine(n);}
-      else if(k=="comp"){c=GetComponent(id,n); GetComponentF(&id,&nf,buf,&len); if(p)cpp=p->GetComponent(n);}
-      std::cout<<"S "<<hx::hex(c?c:"(null)")<<" | cpp "<<(cpp?hx::hex(cpp):std::string("dead"))<<" | f "<<fstr(buf,256,len)<<"\n";
-    }
-    else std::cout<<"bad-op\n";
-    std::cout.flush();
+    else out<<"bad-op\n";
+    } catch(const std::exception& e){ out<<"bad-op "<<e.what()<<"\n"; }
+    out.flush();
   }
   return 0;
 }
